@@ -5,6 +5,7 @@ import (
 	"encoding/binary"
 	"encoding/hex"
 	"fmt"
+	"math/big"
 	mrand "math/rand"
 	"sync"
 	"testing"
@@ -218,6 +219,67 @@ func TestScalarmultKeyDoesNotReduce(t *testing.T) {
 	if _, err := xcrypto.ScalarmultKey(hx("0200000000000000000000000000000000000000000000000000000000000000"), d2h(3)); err == nil {
 		t.Fatalf("ScalarmultKey on an invalid point must fail")
 	}
+}
+
+// Monero's ge_scalarmult is specified for a[31] <= 127 only. For bigger inputs
+// the top signed radix-16 digit e63 = (a[31] + carry + 8) >> 4 can exceed 8, in
+// which case the table lookup adds the identity: the result is
+// (a - e63*2^252)*P. linkchain's app tests rely on this (they use point
+// encodings as secret keys), so the model reproduces it.
+func TestGeScalarmultOutOfSpec(t *testing.T) {
+	seedRand(t, 17)
+	l := new(big.Int).SetBytes(reverse(ringct.L[:]))
+	_, p := xcrypto.SkpkGen()
+	cases := []lk.Key{ringct.H, ringct.G, hx("ffffffffffffffffffffffffffffffffffffffffffffffffffffffffffffffff"),
+		hx("0000000000000000000000000000000000000000000000000000000000000080"),
+		hx("f8ffffffffffffffffffffffffffffffffffffffffffffffffffffffffffff87"),
+		hx("00000000000000000000000000000000000000000000000000000000000000f0")}
+	for i := 0; i < 20; i++ {
+		k := xcrypto.SkGen()
+		k[31] |= 0x80 | byte(i<<3)
+		cases = append(cases, k)
+	}
+	for _, a := range cases {
+		// signed radix-16 recoding exactly as in crypto-ops.c
+		carry := 0
+		for i := 0; i < 31; i++ {
+			carry += int(a[i])
+			carry2 := (carry + 8) >> 4
+			carry = (carry2 + 8) >> 4
+		}
+		carry += int(a[31])
+		e63 := (carry + 8) >> 4
+		eff := new(big.Int).SetBytes(reverse(a[:]))
+		if e63 > 8 {
+			eff.Sub(eff, new(big.Int).Lsh(big.NewInt(int64(e63)), 252))
+		}
+		eff.Mod(eff, l)
+		var kb lk.Key
+		copy(kb[:], reverse(eff.FillBytes(make([]byte, 32))))
+		want := must(xcrypto.ScalarmultKey(p, kb))
+		if got := must(xcrypto.ScalarmultKey(p, a)); got != want {
+			t.Errorf("ScalarmultKey(P, %x): got %x want %x (e63=%d)", a, got, want, e63)
+		}
+		wantH := must(xcrypto.ScalarmultKey(ringct.H, kb))
+		if got := xcrypto.ScalarmultH(a); got != wantH {
+			t.Errorf("ScalarmultH(%x): got %x want %x", a, got, wantH)
+		}
+		// ScalarmultBase reduces first (rctOps scalarmultBase), no quirk
+		full := new(big.Int).Mod(new(big.Int).SetBytes(reverse(a[:])), l)
+		var fb lk.Key
+		copy(fb[:], reverse(full.FillBytes(make([]byte, 32))))
+		if xcrypto.ScalarmultBase(a) != xcrypto.ScalarmultBase(fb) {
+			t.Errorf("ScalarmultBase(%x) is not (a mod l)*G", a)
+		}
+	}
+}
+
+func reverse(b []byte) []byte {
+	r := make([]byte, len(b))
+	for i := range b {
+		r[len(b)-1-i] = b[i]
+	}
+	return r
 }
 
 // ---------------------------------------------------------------------------
